@@ -46,11 +46,17 @@ def lean_obligations(pid, tier, log):
     problems = []
     checker = "cd lean && lake build %s sfsmodel && lake env lean <audit: #print axioms per theorem>" % " ".join(cfg.get("modules", [f"SfsModel.Props.{pid}"]))
     with Lock("lake.lock"):
+        # source tie for constants: regenerate Generated/SourceConsts.lean from the repository as it is now (Props/Tie.lean)
+        rc0, out0 = sh([sys.executable, os.path.join(VERIF, "tools", "extract_consts.py"), REPO], timeout=120)
+        missing = [l.split()[0] for l in out0.split("\n") if l.strip().endswith("NOT-FOUND")]
+        if rc0 != 0: problems.append("tools/extract_consts.py failed: " + out0[-300:])
+        elif missing: print("  note: constants no longer located in the source (tie not checked for them): " + ", ".join(missing))
         rc, out = sh(["lake", "build"] + mods + ["sfsmodel"], cwd=LEAN, timeout=3600)
     log.append(out[-4000:])
     sorry_lines = re.findall(r"(\S+\.lean):(\d+):\d+: declaration uses `sorry`", out)
     if rc != 0:
-        problems.append(f"lake build {' '.join(mods)} failed (rc={rc})")
+        tie = " — Props/Tie.lean no longer checks: a constant in the repository's source differs from the value the model is built on (" + "; ".join(l.strip() for l in out0.split("\n") if l.strip())[:300] + ")" if "SfsModel.Props.Tie" in out and "Tie.lean" in out else ""
+        problems.append(f"lake build {' '.join(mods)} failed (rc={rc})" + tie)
         return len(thms), 0, problems, checker
     # source hygiene over the import closure of this property's theorem file and the driver (comment text discarded)
     for path in import_closure([os.path.join(LEAN, *m.split(".")) + ".lean" for m in mods] + [os.path.join(LEAN, "Driver.lean")]):
